@@ -50,6 +50,10 @@ def build_layout(box, rnd, srcrel):
     extra_depth = rnd.randrange(0, 3)
     for k in range(extra_depth):
         names.append("/".join("n%d" % j for j in range(k + 2)) + "/leaf%d.rs" % k)
+    # another project's configuration and lock inside the tree (a vendored crate): ordinary out-of-scope files
+    for n_, d_ in (("Breadlog.lock", core.lock_text(3)), ("vendor/Breadlog.yaml", core.make_config()), ("vendor/Breadlog.lock", core.lock_text(2)),
+                   ("vendor/Breadlog.lock.tmp", core.lock_text(1))):
+        box.write(os.path.join(srcrel, n_), d_)
     # in-scope files far below the source directory ("at any depth")
     for depth in (16, 17, 18, 33, 64, 120):
         names.append("/".join("p%d" % j for j in range(depth)) + "/at_depth_%d.rs" % depth)
